@@ -74,18 +74,26 @@ type cell struct {
 type raceState struct {
 	shadow map[uintptr]*cell
 	keep   map[unsafe.Pointer]struct{}
+	maps   map[unsafe.Pointer]any
 	races  []Race
 	seen   map[string]bool
 	checks int64
 }
 
 func newRaceState() *raceState {
-	return &raceState{shadow: map[uintptr]*cell{}, keep: map[unsafe.Pointer]struct{}{}, seen: map[string]bool{}}
+	return &raceState{shadow: map[uintptr]*cell{}, keep: map[unsafe.Pointer]struct{}{}, maps: map[unsafe.Pointer]any{}, seen: map[string]bool{}}
 }
 
 // keepAlive pins the object so that its address cannot be reused within the
 // run (the shadow map is dropped with the Sim).
 func (rs *raceState) keepAlive(p unsafe.Pointer) { rs.keep[p] = struct{}{} }
+
+// keepMap pins a map for the run: its identity is the address of its header.
+func (rs *raceState) keepMap(id unsafe.Pointer, m any) {
+	if _, ok := rs.maps[id]; !ok {
+		rs.maps[id] = m
+	}
+}
 
 func vcGet(vc []uint32, i int) uint32 {
 	if i < len(vc) {
